@@ -1,6 +1,6 @@
 (* C05 — size-limited and dry-run operators agree with the unrestricted operator; cmp_implies. *)
 From Coq Require Import List NArith Bool. Import ListNotations.
-From BddVerif Require Import Model.Bdd Model.Apply Model.Ops Proofs.Sem Proofs.Canon Proofs.ApplySem Proofs.ApplyTop Proofs.CmpSem.
+From BddVerif Require Import Model.Bdd Model.Apply Model.Ops Proofs.Sem Proofs.Canon Proofs.ApplySem Proofs.ApplyTop Proofs.CmpSem Proofs.DrySem.
 Open Scope N_scope.
 
 (* Some(r) exactly when the unrestricted result r has at most `limit` nodes, and then r is that result;
@@ -24,6 +24,20 @@ Theorem C05_cmp_implies : forall a b, wf a -> wf b ->
        (o = None <-> (~ implies a b /\ ~ implies b a))).
 Proof. exact cmp_implies_spec. Qed.
 Print Assumptions C05_cmp_implies.
+
+(* dry run: there is a task count c, at least the number of decision nodes of the unrestricted result r, such that for
+   EVERY limit the check returns None exactly when c exceeds the limit and otherwise (not r.is_false(), c) *)
+Theorem C05_dry_run_exact : forall A B fa fb fo op,
+  wf A -> wf B -> nvars A = nvars B -> flips_ok (nvars A) fa fb fo = true -> total2 op -> consistent2 op ->
+  exists r c, fused_binary_flip_op A B fa fb fo op = Ok r /\ size r - 2 <= c /\
+    forall limit, check_fused_binary_flip_op limit A B fa fb fo op = Ok (if limit <? c then None else Some (negb (is_false r), c)).
+Proof. exact check_exact. Qed.
+Print Assumptions C05_dry_run_exact.
+
+Theorem C05_dry_run_panic_iff : forall limit A B fa fb fo op,
+  check_fused_binary_flip_op limit A B fa fb fo op = Panic <-> (nvars A <> nvars B \/ flips_ok (nvars A) fa fb fo = false).
+Proof. exact check_panic_iff. Qed.
+Print Assumptions C05_dry_run_panic_iff.
 
 Example C05_nonvacuous :
   let A := [mkNode 3 0 0; mkNode 3 1 1; mkNode 1 0 1; mkNode 0 0 2] in
